@@ -1,1 +1,433 @@
-//! (module owned by one property family; see AGENT_GUIDE.md)
+//! Process helpers for the E3 (process-boundary) checks C33/C35/C36/C39:
+//! locate the shipped binaries, run a command with a private HOME / XDG dirs, capture
+//! stdout / stderr / exit status under a generous wall-clock watchdog (its firing is
+//! *inconclusive*, never a verdict), optional RLIMIT_FSIZE, and `strace` wrappers
+//! (syscall enumeration + `-e inject=` fault injection) with a parser for strace's log.
+
+use std::io::{Read, Write};
+use std::os::unix::process::{CommandExt, ExitStatusExt};
+use std::path::{Path, PathBuf};
+use std::process::{Command, Stdio};
+use std::time::{Duration, Instant};
+
+/// Directory that holds the shipped binaries built from the tree under check.
+/// `VERIF_REPO_BINS` overrides; default `<work>/../repo-bins/release` (work = $VERIF_TARGET/work).
+pub fn bins_dir(work: &str) -> PathBuf {
+    if let Ok(d) = std::env::var("VERIF_REPO_BINS") {
+        if !d.is_empty() {
+            return PathBuf::from(d);
+        }
+    }
+    let w = Path::new(work);
+    let target = w.parent().unwrap_or(w);
+    target.join("repo-bins").join("release")
+}
+
+/// Path of one shipped binary (`luafmt`, `emmylua_check`, `emmylua_doc_cli`, `emmylua_ls`).
+pub fn repo_bin(work: &str, name: &str) -> Result<PathBuf, String> {
+    let p = bins_dir(work).join(name);
+    match std::fs::metadata(&p) {
+        Ok(m) if m.is_file() => Ok(p),
+        _ => Err(format!("binary-not-found:{}", p.display())),
+    }
+}
+
+/// Unique scratch directory under `work` (pid + shard + tag); the caller removes it.
+pub fn scratch_dir(work: &str, tag: &str, shard: u32) -> PathBuf {
+    let d = Path::new(work).join(format!("{tag}-{}-{shard}", std::process::id()));
+    let _ = std::fs::remove_dir_all(&d);
+    let _ = std::fs::create_dir_all(&d);
+    d
+}
+
+/// Create (or empty) a private HOME directory.
+pub fn fresh_home(dir: &Path) -> PathBuf {
+    let _ = std::fs::remove_dir_all(dir);
+    let _ = std::fs::create_dir_all(dir);
+    dir.to_path_buf()
+}
+
+#[derive(Clone, Debug)]
+pub struct Cmd {
+    pub program: PathBuf,
+    pub args: Vec<String>,
+    pub cwd: Option<PathBuf>,
+    /// private HOME (XDG dirs are derived from it)
+    pub home: PathBuf,
+    pub env: Vec<(String, String)>,
+    pub stdin: Option<Vec<u8>>,
+    /// RLIMIT_FSIZE (soft = hard) for the child
+    pub rlimit_fsize: Option<u64>,
+    /// ignore SIGXFSZ in the child (so that exceeding the limit is EFBIG, not death)
+    pub ignore_sigxfsz: bool,
+    /// generous outer wall-clock watchdog; firing makes the run inconclusive
+    pub wall_limit_secs: f64,
+}
+
+impl Cmd {
+    pub fn new(program: &Path, home: &Path) -> Cmd {
+        Cmd {
+            program: program.to_path_buf(),
+            args: Vec::new(),
+            cwd: None,
+            home: home.to_path_buf(),
+            env: Vec::new(),
+            stdin: None,
+            rlimit_fsize: None,
+            ignore_sigxfsz: false,
+            wall_limit_secs: 300.0,
+        }
+    }
+    pub fn arg(mut self, a: impl Into<String>) -> Cmd {
+        self.args.push(a.into());
+        self
+    }
+    pub fn args<I: IntoIterator<Item = S>, S: Into<String>>(mut self, it: I) -> Cmd {
+        for a in it {
+            self.args.push(a.into());
+        }
+        self
+    }
+    pub fn cwd(mut self, d: &Path) -> Cmd {
+        self.cwd = Some(d.to_path_buf());
+        self
+    }
+}
+
+#[derive(Clone, Debug, Default)]
+pub struct Output {
+    pub code: Option<i32>,
+    pub signal: Option<i32>,
+    pub stdout: Vec<u8>,
+    pub stderr: Vec<u8>,
+    /// the watchdog killed the run: inconclusive
+    pub watchdog: bool,
+    pub wall_s: f64,
+}
+
+impl Output {
+    pub fn stdout_str(&self) -> String {
+        String::from_utf8_lossy(&self.stdout).into_owned()
+    }
+    pub fn stderr_str(&self) -> String {
+        String::from_utf8_lossy(&self.stderr).into_owned()
+    }
+    /// "exit:N" / "signal:N" / "watchdog"
+    pub fn status_str(&self) -> String {
+        if self.watchdog {
+            "watchdog".into()
+        } else if let Some(c) = self.code {
+            format!("exit:{c}")
+        } else if let Some(s) = self.signal {
+            format!("signal:{s}")
+        } else {
+            "unknown".into()
+        }
+    }
+}
+
+/// Run one command to completion. `Err` = the harness could not run it (spawn failure):
+/// always inconclusive for the caller.
+pub fn run(cmd: &Cmd) -> Result<Output, String> {
+    let mut c = Command::new(&cmd.program);
+    c.args(&cmd.args);
+    c.env_clear();
+    let path = std::env::var("PATH").unwrap_or_else(|_| "/usr/local/bin:/usr/bin:/bin".into());
+    let home = cmd.home.to_string_lossy().to_string();
+    c.env("PATH", path)
+        .env("HOME", &home)
+        .env("XDG_CONFIG_HOME", format!("{home}/.config"))
+        .env("XDG_DATA_HOME", format!("{home}/.local/share"))
+        .env("XDG_CACHE_HOME", format!("{home}/.cache"))
+        .env("XDG_STATE_HOME", format!("{home}/.local/state"))
+        .env("LANG", "C")
+        .env("LC_ALL", "C")
+        .env("NO_COLOR", "1")
+        .env("RUST_BACKTRACE", "0");
+    for (k, v) in &cmd.env {
+        c.env(k, v);
+    }
+    if let Some(d) = &cmd.cwd {
+        c.current_dir(d);
+    }
+    c.stdin(if cmd.stdin.is_some() { Stdio::piped() } else { Stdio::null() });
+    c.stdout(Stdio::piped());
+    c.stderr(Stdio::piped());
+    let rl = cmd.rlimit_fsize;
+    let ign = cmd.ignore_sigxfsz;
+    unsafe {
+        c.pre_exec(move || {
+            // own process group so the watchdog can kill strace + tracees together
+            libc::setpgid(0, 0);
+            if ign {
+                libc::signal(libc::SIGXFSZ, libc::SIG_IGN);
+            }
+            if let Some(l) = rl {
+                let lim = libc::rlimit { rlim_cur: l as libc::rlim_t, rlim_max: l as libc::rlim_t };
+                if libc::setrlimit(libc::RLIMIT_FSIZE, &lim) != 0 {
+                    return Err(std::io::Error::last_os_error());
+                }
+            }
+            Ok(())
+        });
+    }
+    let t0 = Instant::now();
+    let mut child = c.spawn().map_err(|e| format!("spawn-failed:{}:{e}", cmd.program.display()))?;
+    let pid = child.id() as i32;
+    let mut so = child.stdout.take().unwrap();
+    let mut se = child.stderr.take().unwrap();
+    let stdin_data = cmd.stdin.clone();
+    let si = child.stdin.take();
+    let h_in = std::thread::spawn(move || {
+        if let (Some(mut si), Some(d)) = (si, stdin_data) {
+            let _ = si.write_all(&d);
+        }
+    });
+    let h_out = std::thread::spawn(move || {
+        let mut v = Vec::new();
+        let _ = so.read_to_end(&mut v);
+        v
+    });
+    let h_err = std::thread::spawn(move || {
+        let mut v = Vec::new();
+        let _ = se.read_to_end(&mut v);
+        v
+    });
+    let mut watchdog = false;
+    let mut sleep_us = 200u64;
+    let status = loop {
+        match child.try_wait() {
+            Ok(Some(st)) => break st,
+            Ok(None) => {}
+            Err(e) => return Err(format!("wait-failed:{e}")),
+        }
+        if t0.elapsed().as_secs_f64() > cmd.wall_limit_secs {
+            watchdog = true;
+            unsafe {
+                libc::kill(-pid, libc::SIGKILL);
+                libc::kill(pid, libc::SIGKILL);
+            }
+            break child.wait().map_err(|e| format!("wait-failed:{e}"))?;
+        }
+        std::thread::sleep(Duration::from_micros(sleep_us));
+        sleep_us = (sleep_us * 2).min(5_000);
+    };
+    // make sure no straggler of the group keeps the pipes open
+    unsafe {
+        libc::kill(-pid, libc::SIGKILL);
+    }
+    let _ = h_in.join();
+    let stdout = h_out.join().unwrap_or_default();
+    let stderr = h_err.join().unwrap_or_default();
+    Ok(Output { code: status.code(), signal: status.signal(), stdout, stderr, watchdog, wall_s: t0.elapsed().as_secs_f64() })
+}
+
+// ---------------------------------------------------------------------------------------------
+// strace
+
+/// Syscalls traced for the C39 enumeration: everything that creates, opens, writes, syncs,
+/// renames, truncates, links or removes a file (non-mutating read/stat calls are left out: a
+/// crash before one of them leaves the same file state as a crash before the next listed call).
+pub const FILE_SYSCALLS: &[&str] = &[
+    "open", "openat", "openat2", "creat", "write", "pwrite64", "writev", "pwritev", "pwritev2", "close", "fsync", "fdatasync",
+    "sync_file_range", "rename", "renameat", "renameat2", "ftruncate", "truncate", "fallocate", "unlink", "unlinkat", "link",
+    "linkat", "symlink", "symlinkat", "chmod", "fchmod", "fchmodat", "chown", "fchown", "fchownat", "lchown", "copy_file_range",
+    "sendfile", "mkdir", "mkdirat", "rmdir", "utimensat", "dup", "dup2", "dup3",
+];
+
+#[derive(Clone, Debug, PartialEq)]
+pub enum Inject {
+    /// SIGKILL delivered on entry of the `when`-th call of `syscall` (the call is not executed)
+    Kill { syscall: String, when: u32 },
+    /// the `when`-th call of `syscall` fails with `errno` (the call is not executed)
+    Error { syscall: String, when: u32, errno: String },
+}
+
+impl Inject {
+    fn expr(&self) -> String {
+        match self {
+            Inject::Kill { syscall, when } => format!("inject={syscall}:signal=KILL:when={when}"),
+            Inject::Error { syscall, when, errno } => format!("inject={syscall}:error={errno}:when={when}"),
+        }
+    }
+}
+
+/// Wrap `cmd` in `strace -f -o <log> -e trace=<set> [-e inject=…]`.
+pub fn strace_wrap(cmd: &Cmd, log: &Path, trace: &[&str], inject: Option<&Inject>) -> Cmd {
+    let mut c = cmd.clone();
+    let mut args: Vec<String> = vec!["-f".into(), "-qq".into(), "-o".into(), log.to_string_lossy().to_string(), "-e".into(), format!("trace={}", trace.join(","))];
+    if let Some(i) = inject {
+        args.push("-e".into());
+        args.push(i.expr());
+    }
+    args.push("--".into());
+    args.push(cmd.program.to_string_lossy().to_string());
+    args.extend(cmd.args.iter().cloned());
+    c.program = PathBuf::from("strace");
+    c.args = args;
+    c
+}
+
+#[derive(Clone, Debug)]
+pub struct SysLine {
+    pub pid: u32,
+    pub name: String,
+    /// text between the outer parentheses (possibly cut at "<unfinished")
+    pub args: String,
+    /// text after " = " ("3", "-1 ENOSPC (No space left on device) (INJECTED)", "?")
+    pub ret: String,
+    /// this line is a syscall *entry* (complete line or "<unfinished ...>"), i.e. counts for `when=`
+    pub entry: bool,
+    pub injected: bool,
+}
+
+#[derive(Clone, Debug, Default)]
+pub struct StraceLog {
+    pub calls: Vec<SysLine>,
+    /// "+++ killed by SIGKILL +++" / "+++ exited with N +++" lines, per pid
+    pub ends: Vec<(u32, String)>,
+    pub unparsed: usize,
+}
+
+/// Parse a `strace -f -o file` log (lines start with the pid).
+pub fn parse_strace(text: &str) -> StraceLog {
+    let mut log = StraceLog::default();
+    for line in text.lines() {
+        let l = line.trim_end();
+        if l.is_empty() {
+            continue;
+        }
+        let (pid_s, rest) = match l.find(|c: char| !c.is_ascii_digit()) {
+            Some(i) if i > 0 => (&l[..i], l[i..].trim_start()),
+            _ => {
+                log.unparsed += 1;
+                continue;
+            }
+        };
+        let pid: u32 = pid_s.parse().unwrap_or(0);
+        if rest.starts_with("+++") {
+            log.ends.push((pid, rest.to_string()));
+            continue;
+        }
+        if rest.starts_with("---") {
+            continue; // signal delivery
+        }
+        if let Some(r) = rest.strip_prefix("<... ") {
+            // "<... write resumed>…) = 5"
+            let name = r.split(' ').next().unwrap_or("").to_string();
+            let ret = r.rsplit_once(" = ").map(|x| x.1.to_string()).unwrap_or_default();
+            let injected = ret.contains("(INJECTED)");
+            log.calls.push(SysLine { pid, name, args: String::new(), ret, entry: false, injected });
+            continue;
+        }
+        let Some(p) = rest.find('(') else {
+            log.unparsed += 1;
+            continue;
+        };
+        let name = rest[..p].to_string();
+        if name.is_empty() || !name.chars().all(|c| c.is_ascii_alphanumeric() || c == '_') {
+            log.unparsed += 1;
+            continue;
+        }
+        let after = &rest[p + 1..];
+        let (args, ret) = if let Some(i) = after.find(" <unfinished ...>") {
+            (after[..i].to_string(), String::new())
+        } else {
+            match after.rsplit_once(" = ") {
+                Some((a, r)) => (a.trim_end().trim_end_matches(')').to_string(), r.to_string()),
+                None => (after.to_string(), String::new()),
+            }
+        };
+        let injected = ret.contains("(INJECTED)");
+        log.calls.push(SysLine { pid, name, args, ret, entry: true, injected });
+    }
+    log
+}
+
+impl StraceLog {
+    pub fn any_injected(&self) -> bool {
+        self.calls.iter().any(|c| c.injected)
+    }
+    pub fn killed(&self) -> bool {
+        self.ends.iter().any(|(_, e)| e.contains("killed by SIGKILL"))
+    }
+    /// The last syscall entry of the log (the one a KILL injection hit has ret "?").
+    pub fn last_entry(&self) -> Option<&SysLine> {
+        self.calls.iter().rev().find(|c| c.entry)
+    }
+}
+
+/// First quoted string of a strace argument list (the path of open/rename/unlink…), unescaped
+/// for the simple escapes strace emits.
+pub fn first_quoted(args: &str) -> Option<String> {
+    quoted_strings(args).into_iter().next()
+}
+
+pub fn quoted_strings(args: &str) -> Vec<String> {
+    let b = args.as_bytes();
+    let mut out = Vec::new();
+    let mut i = 0;
+    while i < b.len() {
+        if b[i] == b'"' {
+            let mut s = Vec::new();
+            i += 1;
+            while i < b.len() && b[i] != b'"' {
+                if b[i] == b'\\' && i + 1 < b.len() {
+                    i += 1;
+                    match b[i] {
+                        b'n' => s.push(b'\n'),
+                        b't' => s.push(b'\t'),
+                        b'r' => s.push(b'\r'),
+                        c => s.push(c),
+                    }
+                } else {
+                    s.push(b[i]);
+                }
+                i += 1;
+            }
+            out.push(String::from_utf8_lossy(&s).into_owned());
+        }
+        i += 1;
+    }
+    out
+}
+
+// ---------------------------------------------------------------------------------------------
+// directory snapshots
+
+/// All regular files below `root` as (relative path with '/', bytes), sorted by path.
+pub fn snapshot_dir(root: &Path) -> Vec<(String, Vec<u8>)> {
+    fn walk(root: &Path, dir: &Path, out: &mut Vec<(String, Vec<u8>)>) {
+        let Ok(rd) = std::fs::read_dir(dir) else { return };
+        let mut ents: Vec<_> = rd.filter_map(|e| e.ok()).collect();
+        ents.sort_by_key(|e| e.file_name());
+        for e in ents {
+            let p = e.path();
+            let Ok(ft) = e.file_type() else { continue };
+            if ft.is_dir() {
+                walk(root, &p, out);
+            } else if ft.is_file() {
+                let rel = p.strip_prefix(root).unwrap_or(&p).to_string_lossy().replace('\\', "/");
+                out.push((rel, std::fs::read(&p).unwrap_or_default()));
+            }
+        }
+    }
+    let mut out = Vec::new();
+    walk(root, root, &mut out);
+    out.sort();
+    out
+}
+
+/// (Re)create `root` with exactly the given files.
+pub fn materialize(root: &Path, files: &[(String, Vec<u8>)]) -> Result<(), String> {
+    let _ = std::fs::remove_dir_all(root);
+    std::fs::create_dir_all(root).map_err(|e| format!("mkdir {}: {e}", root.display()))?;
+    for (rel, data) in files {
+        let p = root.join(rel);
+        if let Some(parent) = p.parent() {
+            std::fs::create_dir_all(parent).map_err(|e| format!("mkdir {}: {e}", parent.display()))?;
+        }
+        std::fs::write(&p, data).map_err(|e| format!("write {}: {e}", p.display()))?;
+    }
+    Ok(())
+}
